@@ -7,6 +7,8 @@ import GocoinV.Proofs.C19Effects
 namespace GocoinV.Proofs.C19
 open GocoinV GocoinV.Qdb GocoinV.QdbSpec
 
+variable {eg : Bool}
+
 /-- where a record lives on disk -/
 def core (r : Rec) : Nat × Nat × Nat := (r.seq, r.pos, r.len)
 
@@ -68,6 +70,10 @@ theorem checkDat_post (db : DB) :
 /-- the state after `checklogfile` + the one Write of the collected entries -/
 def logWritten (d : DB) (bidx : Bytes) : DB :=
   { emit (checkLog d) "qdb.sync:log-written" (.appendLog bidx) with pending := [] }
+
+theorem logWritten_eager (d : DB) (bidx : Bytes) : (logWritten d bidx).eager = d.eager := by
+  unfold logWritten checkLog
+  split <;> rfl
 
 theorem logWritten_post (d : DB) (bidx : Bytes) (E : List LogEntry) (hs : LogState d.fs d.verSeq E)
     (h1 : d.logOpen = false → d.fs.log = none) (h2 : d.logOpen = true → d.fs.log ≠ none) :
@@ -158,7 +164,7 @@ structure DiskInv (db : DB) : Prop where
   clean : ∀ k, k ∉ db.pending → (ilookup k (diskIndex db.fs)).map core = (ilookup k db.index).map core
   files : ∀ k r, k ∉ db.pending → ilookup k db.index = some r →
     ∃ f, dlookup r.seq db.fs.dats = some f ∧ ReadsBack f r (r.data.getD [])
-  dflags : ∀ kr ∈ diskIndex db.fs, hasFlag kr.2.flags NO_CACHE = false
+  dflags : ∀ kr ∈ diskIndex db.fs, hasFlag kr.2.flags (ncOf db.eager) = false
   dat1 : db.datOpen = true → ∃ f, dlookup db.dataSeq db.fs.dats = some f ∧ db.lastPos = f.length ∧ 4 ≤ f.length
   /-- while no data file is open for writing, the next one (`DataSeq`) is referenced by nothing on disk -/
   dat2 : db.datOpen = false → ∀ kr ∈ diskIndex db.fs, kr.2.seq ≠ db.dataSeq
@@ -199,8 +205,8 @@ theorem mem_applyEntriesL (es : List LogEntry) (D : List (Key × Rec)) (kr : Key
       | del k => exact Or.inl (mem_ierase k D kr h1)
     · exact Or.inr (List.mem_cons_of_mem _ h1)
 
-theorem plan_puts_cached (seq : Nat) (ks : List Key) (idx : List (Key × Rec)) (hc : AllCached idx) (pos : Nat) :
-    ∀ k r, LogEntry.put k r ∈ (syncPlan seq idx ks pos).2.1 → hasFlag r.flags NO_CACHE = false := by
+theorem plan_puts_cached (seq : Nat) (ks : List Key) (idx : List (Key × Rec)) (hc : AllCached eg idx) (pos : Nat) :
+    ∀ k r, LogEntry.put k r ∈ (syncPlan seq idx ks pos).2.1 → hasFlag r.flags (ncOf eg) = false := by
   induction ks generalizing idx pos with
   | nil => intro k r h; simp [syncPlan] at h
   | cons j t ih =>
@@ -391,8 +397,10 @@ theorem sync_logWritten (db : DB) (inv : DiskInv db) (hp : db.pending.isEmpty = 
     cases ho : db.datOpen with
     | true => rw [c_same ho]
     | false => exact (c_new ho).2.2 t ht
+  have hEag : (logWritten d' (encLog plan.2.1)).eager = db.eager :=
+    (logWritten_eager d' _).trans (hkeep.eager.trans (frame_checkDat db).eager)
   constructor
-  · exact ⟨l_f.trans hc'.1, by rw [AllCached, l_ix]; exact hc'.2⟩
+  · exact ⟨l_f.trans hc'.1, by rw [logWritten_eager, AllCached, l_ix]; exact hc'.2⟩
   · rw [l_vol, r_vol]; exact (frame_checkDat db).volatile.trans inv.nv
   · rw [l_ix, hidx', ← hplan]; exact plan_wf db.dataSeq db.pending inv.pkeys db.index inv.wf _
   · rw [keys_of_absv, show absv (logWritten d' (encLog plan.2.1)) = absv db from by unfold absv; rw [l_ix]; exact habs',
@@ -453,6 +461,7 @@ theorem sync_logWritten (db : DB) (inv : DiskInv db) (hp : db.pending.isEmpty = 
       · exact ⟨f, by rw [hother _ hs]; exact h1, h2⟩
   · -- flags of the disk records
     intro kr hkr
+    rw [hEag]
     rw [hDI] at hkr
     rcases mem_applyEntriesL _ _ kr hkr with h | h
     · exact inv.dflags kr h
